@@ -222,22 +222,27 @@ fn interface_name<'a>(input: &mut &'a [u8]) -> ModalResult<&'a str, InputError<&
     while pos < input.len() && (input[pos].is_ascii_alphanumeric() || input[pos] == b'-') {
         pos += 1;
     }
+    // A segment does not end in a dash (its first character is not one)
+    while input[pos - 1] == b'-' {
+        pos -= 1;
+    }
 
     let mut found_dot = false;
     // Subsequent segments: .[A-Za-z0-9]([-]*[A-Za-z0-9])*
     while pos < input.len() && input[pos] == b'.' {
-        found_dot = true;
-        pos += 1; // skip dot
-
-        // Must have at least one alphanumeric after dot
-        if pos >= input.len() || !input[pos].is_ascii_alphanumeric() {
+        // The dot is part of the name only if a segment follows it
+        if pos + 1 >= input.len() || !input[pos + 1].is_ascii_alphanumeric() {
             break;
         }
-        pos += 1;
+        found_dot = true;
+        pos += 2; // skip dot and the first character of the segment
 
         // Continue with alphanumeric and dashes
         while pos < input.len() && (input[pos].is_ascii_alphanumeric() || input[pos] == b'-') {
             pos += 1;
+        }
+        while input[pos - 1] == b'-' {
+            pos -= 1;
         }
     }
 
